@@ -16,12 +16,21 @@ from .common_own import rule_invoke_guard
 T = "reactivex/scheduler/trampoline.py"
 TS = "reactivex/scheduler/trampolinescheduler.py"
 CT = "reactivex/scheduler/currentthreadscheduler.py"
-LOCKS = ["self._lock", "self._condition"]
+
+
+def trampoline_roles(repo: Repo):
+    """(idle flag, queue, lock, condition) attribute names of Trampoline, by how __init__ fills them."""
+    from .attr_roles import roles
+    r = roles(repo, T, "Trampoline")
+    return (r.by_const(True, only=True), r.by_call("PriorityQueue"), r.by_call("Lock", "RLock", "threading.Lock", "threading.RLock"),
+            r.by_call("Condition", "threading.Condition"))
 
 
 def check(repo: Repo, rep: Report) -> None:
+    T_IDLE, T_Q, T_LK, T_CV = trampoline_roles(repo)
+    LOCKS = [f"self.{T_LK}", f"self.{T_CV}"]
     rep.explanation = (
-        "Lock discipline and structure of Trampoline: `_idle` and `_queue` are only touched under `_lock` (the "
+        f"Lock discipline and structure of Trampoline: `{T_IDLE}` and `{T_Q}` are only touched under `{T_LK}` (the "
         "Condition aliases it); run() enqueues and test-and-sets idle in one region, and only the caller that found "
         "the trampoline idle enters the drain loop (a nested schedule only enqueues: never nested execution); invoke() "
         "happens only in _run, outside the lock, under `not is_cancelled()`; an item moves to the ready deque only under "
@@ -29,8 +38,8 @@ def check(repo: Repo, rep: Report) -> None:
         "restores idle under the lock; the lock is non-reentrant and never re-acquired; CurrentThreadScheduler resolves "
         "its trampoline per thread (thread-keyed map / threading.local).")
     rep.assumptions += ["threading.Lock / Condition semantics", "PriorityQueue stability is decided under C28-O2"]
-    rep.rule("L1-write-locked", "writes to _idle/_queue under the lock", floor=4)
-    rep.rule("L2-read-locked", "reads of _idle/_queue under the lock", floor=5)
+    rep.rule("L1-write-locked", f"writes to {T_IDLE}/{T_Q} under the lock", floor=4)
+    rep.rule("L2-read-locked", f"reads of {T_IDLE}/{T_Q} under the lock", floor=5)
     rep.rule("N1-never-nested", "run(): enqueue + idle test-and-set in one region; only the idle-finder drains", floor=3)
     rep.rule("N2-invoke-site", "invoke() only in _run, outside the lock", floor=1)
     rep.rule("N3-due-guard", "items become ready only under duetime <= now", floor=2)
@@ -40,15 +49,15 @@ def check(repo: Repo, rep: Report) -> None:
     rep.rule("N7-per-thread", "CurrentThreadScheduler trampolines are per thread", floor=2)
     rep.rule("N8-clamp-relative", "negative relative due times are clamped to zero (a late 'past' item must not overtake earlier ones)", floor=1)
     cls = repo.fn(T, "Trampoline")
-    cl = ClassLocks(repo, cls, LOCKS, ["_idle", "_queue"])
+    cl = ClassLocks(repo, cls, LOCKS, [f"{T_IDLE}", f"{T_Q}"])
     discipline(rep, cl, "L1-write-locked", "L2-read-locked", what=" (a second thread could run actions concurrently or lose an item)")
     run = repo.fn(T, "Trampoline.run")
     _run = repo.fn(T, "Trampoline._run")
 
     def ev(n: ast.AST) -> Optional[str]:
-        if isinstance(n, ast.Call) and dotted(n.func) == "self._queue.enqueue":
+        if isinstance(n, ast.Call) and dotted(n.func) == f"self.{T_Q}.enqueue":
             return "ENQ"
-        if isinstance(n, ast.Assign) and any(u(t) == "self._idle" for t in n.targets) and isinstance(n.value, ast.Constant):
+        if isinstance(n, ast.Assign) and any(u(t) == f"self.{T_IDLE}" for t in n.targets) and isinstance(n.value, ast.Constant):
             return "IDLE=" + str(n.value.value)
         if isinstance(n, ast.Call) and dotted(n.func) == "self._run":
             return "DRAIN"
@@ -57,7 +66,7 @@ def check(repo: Repo, rep: Report) -> None:
     busy = [s for s in sites(run) if ev(s.node) == "IDLE=False"]
     rep.require(enq and busy, "enqueue and idle=False in Trampoline.run")
     same = all(cl.held(s) for s in enq + busy) and len({tuple(s.ctx.locks) for s in enq + busy}) == 1 \
-        and all(has_guard(s.ctx, "self._idle", True) for s in busy)
+        and all(has_guard(s.ctx, f"self.{T_IDLE}", True) for s in busy)
     # both in the same `with` statement
     def with_of(s):
         cur = s.stmt
@@ -74,8 +83,8 @@ def check(repo: Repo, rep: Report) -> None:
         if p.exc:
             continue
         k = p.kinds
-        idle_true = p.decided("self._idle") is True
-        idle_false = p.decided("self._idle") is False
+        idle_true = p.decided(f"self.{T_IDLE}") is True
+        idle_false = p.decided(f"self.{T_IDLE}") is False
         desc = f"path[{' ; '.join(f'{t}={v}' for t, v in p.decisions)}] events={k}"
         if idle_false:
             rep.ob("N1-never-nested", run, f"busy trampoline: enqueue only :: {desc}", "ENQ" in k and "DRAIN" not in k,
@@ -97,7 +106,7 @@ def check(repo: Repo, rep: Report) -> None:
     # N3
     for s in sites(_run):
         n = s.node
-        if isinstance(n, ast.Call) and (dotted(n.func) == "self._queue.dequeue" or (isinstance(n.func, ast.Attribute)
+        if isinstance(n, ast.Call) and (dotted(n.func) == f"self.{T_Q}.dequeue" or (isinstance(n.func, ast.Attribute)
                                                                                   and n.func.attr == "append")):
             ok = False
             for e, p in s.ctx.guards:
@@ -129,7 +138,7 @@ def check(repo: Repo, rep: Report) -> None:
             return True
         return any(_reraises(h) and any(h in t.handlers for t in d.ctx.tries) for h in r.ctx.handlers)
     ok = bool(drains) and any(_on_failure(r, d) and cl.held(r) for r in restores for d in drains)
-    rep.ob("N5-idle-restored", run, "when the drain raises: with lock: _idle = True", ok,
+    rep.ob("N5-idle-restored", run, f"when the drain raises: with lock: {T_IDLE} = True", ok,
            "idle is not restored (under the lock, on the failure path of the drain) after an action raises: every later "
            "schedule only enqueues and nothing ever runs")
     # N10: an immediate action is due NOW (an absolute time), so that it queues behind timed actions that are already overdue
@@ -142,10 +151,10 @@ def check(repo: Repo, rep: Report) -> None:
     # N9: the drain -> idle transition is one critical section with the emptiness test that ends the drain
     rep.rule("N9-idle-with-emptiness", "the drain goes idle in the critical section in which it found the queue empty; nothing resets the trampoline after a normal drain", floor=2)
     def _empty(e, p) -> bool:
-        r = compare_norm(e, lambda x: u(x) == "len(self._queue)")
+        r = compare_norm(e, lambda x: u(x) == f"len(self.{T_Q})")
         if r and isinstance(r[1], ast.Constant) and r[1].value == 0:
             return (p and r[0] == "==") or (not p and r[0] in (">", "!="))
-        return u(e) == "self._queue" and not p
+        return u(e) == f"self.{T_Q}" and not p
     exits = [s for s in sites(_run) if isinstance(s.node, (ast.Break, ast.Return)) and len(s.ctx.loops) <= 1 and any(_empty(e, p) for e, p in s.ctx.guards)]
     rep.require(exits, "drain exit under an emptiness test of the queue")
     par = _run.module.parents
@@ -160,17 +169,17 @@ def check(repo: Repo, rep: Report) -> None:
     for x in exits:
         reg = _region(x.node)
         ok = reg is not None and cl.held(x) and any(_region(i.node) is reg and i.index < x.index and i.ctx.branch == x.ctx.branch for i in idles)
-        rep.ob("N9-idle-with-emptiness", _run, f"`{short(x.stmt, 40)}` under {[short(e, 30) for e, _ in x.ctx.guards]}: _idle = True in the same critical section", ok,
+        rep.ob("N9-idle-with-emptiness", _run, f"`{short(x.stmt, 40)}` under {[short(e, 30) for e, _ in x.ctx.guards]}: {T_IDLE} = True in the same critical section", ok,
                "the drain stops on an empty queue but goes idle in a later critical section (or not under the lock): an item another "
                "thread enqueues in between finds the trampoline busy, is only enqueued, and is never run (or is cleared)")
-    after = [r for r in sites(run) if (ev(r.node) == "IDLE=True" or (isinstance(r.node, ast.Call) and dotted(r.node.func) == "self._queue.clear"))
+    after = [r for r in sites(run) if (ev(r.node) == "IDLE=True" or (isinstance(r.node, ast.Call) and dotted(r.node.func) == f"self.{T_Q}.clear"))
              and not any(_reraises(h) for h in r.ctx.handlers)]
-    rep.ob("N9-idle-with-emptiness", run, f"no reset of _idle / the queue after a normal drain ({len(after)} found)", not after,
+    rep.ob("N9-idle-with-emptiness", run, f"no reset of {T_IDLE} / the queue after a normal drain ({len(after)} found)", not after,
            "run() resets the idle flag / clears the queue after a *normal* return of the drain (e.g. in a finally): items enqueued by "
            "another thread since the drain found the queue empty are thrown away, or a drain started by that thread is marked idle "
            "while it runs")
     # N6
-    kind = lock_kind(repo, cls, "_lock")
+    kind = lock_kind(repo, cls, f"{T_LK}")
     bad = reacquire_sites(repo, cls, set(LOCKS)) if kind in ("Lock", "Condition(Lock)") else []
     for m, s, w in bad:
         rep.ob("N6-no-reacquire", m, f"{m.name}: {short(s.node, 40)}", False,
@@ -182,9 +191,11 @@ def check(repo: Repo, rep: Report) -> None:
             and call_name(s.node.value) == "current_thread"]
     rep.require(keys, "current_thread() in CurrentThreadScheduler.get_trampoline")
     key = u(keys[0].node.targets[0])
-    lookups = [s for s in sites(gt) if isinstance(s.node, ast.Call) and dotted(s.node.func) == "self._tramps.get"
+    from .attr_roles import roles as _roles
+    TM = _roles(repo, CT, "CurrentThreadScheduler").by_call("WeakKeyDictionary", "dict", "weakref.WeakKeyDictionary")
+    lookups = [s for s in sites(gt) if isinstance(s.node, ast.Call) and dotted(s.node.func) == f"self.{TM}.get"
                and s.node.args and u(s.node.args[0]) == key]
-    stores = [s for s in sites(gt) if isinstance(s.node, ast.Assign) and any(u(t) == f"self._tramps[{key}]" for t in s.node.targets)]
+    stores = [s for s in sites(gt) if isinstance(s.node, ast.Assign) and any(u(t) == f"self.{TM}[{key}]" for t in s.node.targets)]
     ctor = [s for s in sites(gt) if isinstance(s.node, ast.Call) and call_name(s.node) == "Trampoline"]
     ok = bool(lookups) and bool(stores) and all(has_guard(c.ctx, None, True) or True for c in ctor)
     rets = [s for s in sites(gt) if isinstance(s.node, ast.Return)]
